@@ -533,7 +533,16 @@ func tamperSigners(r *rand.Rand, data []byte) []byte {
 		forged = arrayItem([][]byte{prot, parts[1], bstrItem(fs)})
 	}
 	var ne [][]byte
-	switch r.Intn(6) {
+	switch r.Intn(9) {
+	case 6: // nothing but null entries: a non-empty list without a single signature
+		ne = [][]byte{{0xf6}, {0xf6}}[:1+r.Intn(2)]
+	case 7: // a null (or undefined) entry next to the genuine ones
+		ne = append(append([][]byte{}, elems...), [][]byte{{0xf6}, {0xf7}}[r.Intn(2)])
+		if r.Intn(2) == 0 {
+			ne = append([][]byte{{0xf6}}, elems...)
+		}
+	case 8: // the list itself null / an empty array
+		return replaceSpan(data, spans[3], [][]byte{{0xf6}, {0x80}}[r.Intn(2)])
 	case 0, 1: // forged in front
 		ne = append([][]byte{forged}, elems...)
 	case 2: // forged behind
